@@ -15,6 +15,7 @@ structure SendState where
   target : SendTarget := .none
   writes : List (ConnId × List Bool) := []
   listenerUp : Bool := false
+  listenerReset : Bool := false     -- the destination accepts and resets: every write on a dialed connection fails
   dialed : Nat := 0
   -- observer (specification side)
   working : Option String := none     -- where the last successful send was written
@@ -40,13 +41,14 @@ def execSend (s : SendState) (op : String) (a : List String) : SendState × Stri
     let sec : Option TcpClient := if q == "none" then none else some { reconnectable := true, conn := sq.map (fun _ => 2) }
     ({ target := .failover { primary := prim, secondary := sec },
        writes := (match sp with | some b => [(1, b)] | none => []) ++ (match sq with | some b => [(2, b)] | none => []) }, "ok")
-  | "listener", [x] => ({ s with listenerUp := x == "up" }, "ok")
+  | "listener", [x] => ({ s with listenerUp := x == "up" || x == "reset", listenerReset := x == "reset" }, "ok")
   | "end", _ => (s, "ok")
   | "msg", [n] =>
     let m := parseNat n
     -- dial oracle for this send: the listener's state decides every dial of the send
     let dials : List Dial := if s.listenerUp then [.conn (100 + s.dialed), .conn (101 + s.dialed), .conn (102 + s.dialed)] else [.refuse, .refuse, .refuse]
-    let ws := s.writes ++ (if s.listenerUp then [(100 + s.dialed, healthy), (101 + s.dialed, healthy), (102 + s.dialed, healthy)] else [])
+    let script := if s.listenerReset then [] else healthy
+    let ws := s.writes ++ (if s.listenerUp then [(100 + s.dialed, script), (101 + s.dialed, script), (102 + s.dialed, script)] else [])
     let w : World := { writes := ws, dials := dials }
     let (w', tgt', ok, log) : World × SendTarget × Bool × List LogEntry :=
       match s.target with
